@@ -18,8 +18,10 @@ fn random_float(min: Value, max: Value) -> Resolved {
 }
 
 fn get_range(min: Value, max: Value) -> std::result::Result<Range<f64>, &'static str> {
-    let min = min.try_float().expect("min must be a float");
-    let max = max.try_float().expect("max must be a float");
+    // The compiler checks the argument types, but a value read from the target can still differ at
+    // runtime (e.g. a target that rejected the read): report it instead of panicking.
+    let min = min.try_float().map_err(|_| "min must be a float")?;
+    let max = max.try_float().map_err(|_| "max must be a float")?;
 
     if max <= min {
         return Err(INVALID_RANGE_ERR);
